@@ -116,7 +116,7 @@ def iterm2_unit(method, term, src):
     @unit(("C01", "C03", "C11"), f"iterm2:ITerm2Image._render_image[{method},{term},src={src}]")
     def u(ctx, method=method, term=term, src=src):
         eng = ctx.engine(f"C01/iterm2._render_image[{method},{term},src={src}]", "C01")
-        eng.default_replay = "C01.render"
+        eng.default_replay = {"C01": "C01.render", "C03": "C03.render", "C11": "C11.fds"}
         st = State()
         ns = ctx.ns("term_image.image.iterm2")
         cs = ctx.ns("term_image._ctlseqs")
